@@ -100,6 +100,8 @@ type FakeGS struct {
 	ReceiverNetworkError graphsync.OnReceiverNetworkErrorListener
 	Unregistered         int
 
+	// CancelGate, when non-nil, holds every Cancel call until the channel is closed (or the call's context ends).
+	CancelGate chan struct{}
 	// CancelAnswer scripts the result of Cancel (nil = ok).
 	CancelAnswer func(req int) error
 	// OnCancel is called (outside the lock) when Cancel is invoked, e.g. to close the request's channels.
@@ -294,6 +296,14 @@ func (g *FakeGS) Cancel(ctx context.Context, id graphsync.RequestID) error {
 		err = g.CancelAnswer(num)
 	}
 	g.rec(GSCall{Op: "cancel", Req: num, Err: err})
+	if gate := g.CancelGate; gate != nil {
+		// graphsync serves the cancel on its own loop: it takes as long as the harness decides
+		select {
+		case <-gate:
+		case <-ctx.Done():
+			return ctx.Err()
+		}
+	}
 	if g.OnCancel != nil {
 		g.OnCancel(num)
 	}
